@@ -54,6 +54,11 @@ Seeds ==
     [] Suite = "alusame" ->      \* Rd = Rs: all 256 values x carry, all four registers as far as they make sense
          { <<16, <<op, 1, 1>>, a, a, a, c, 232, FALSE, 16, 255>> :
              op \in {16 * g + 5 * r : g \in {6, 7, 8, 9, 10, 11, 12, 13}, r \in 0..2}, a \in 0..255, c \in 0..1 }
+    [] Suite = "alupairs" ->     \* register-register group: all 16 register pairs (PC and aliasing included) x boundary values x carry
+         { <<16, <<16 * g + 4 * rs + rd, 1, 1>>, v[1], v[2], v[3], c, 232, FALSE, 16, 255>> :
+             g \in {6, 7, 8, 9, 10, 11, 12, 13}, rs \in 0..3, rd \in 0..3,
+             v \in { <<a, b, a>> : a \in {0, 1, 2, 127, 128, 254, 255}, b \in {0, 1, 2, 127, 128, 254, 255} } \cup {<<9, 72, 33>>, <<4, 128, 200>>, <<77, 3, 19>>},
+             c \in 0..1 }
     [] Suite = "unary" ->        \* unary group: all 256 values x all 16 flag states x 3 registers (+ DEC register form)
          { <<16, <<op, 1, 1>>, a, a, a, f, 232, FALSE, 16, 255>> :
              op \in {16 * 3 + 4 * x + r : x \in 0..3, r \in 0..2} \cup {16 * 4 + 4 * x + r : x \in 0..2, r \in 0..2}
